@@ -40,7 +40,13 @@ class VBaseExc(BaseException):
 
 EXC_CLASSES = {'VExc': VExc, 'BaseExc': VBaseExc, 'TimeoutError': TimeoutError, 'KeyError': KeyError,
                'ValueError': ValueError, 'OSError': OSError, 'RuntimeError': RuntimeError,
-               'LookupError': LookupError, 'AssertionError': AssertionError}
+               'LookupError': LookupError, 'AssertionError': AssertionError,
+               'NotImplementedError': NotImplementedError,      # a RuntimeError
+               'ConnectionResetError': ConnectionResetError,    # an OSError
+               'InvalidStateError': asyncio.InvalidStateError,
+               'IndexError': IndexError, 'AttributeError': AttributeError,
+               'TypeError': TypeError, 'UnicodeEncodeError':
+               lambda msg: UnicodeEncodeError('ascii', str(msg), 0, 1, 'x')}
 
 
 class VResult:
@@ -60,13 +66,16 @@ class Recorder:
         self.objs = {}
         self._tokens = {}
         self._names = {}
+        self._name_count = {}
         self._keep = []
 
     def name(self, obj, token):
         """give a stable token to an object made by the harness (an exception raised by a
         job), whatever its class"""
         self._keep.append(obj)
-        self._names[id(obj)] = token
+        # (a body that runs twice in one recorded run makes two different objects)
+        n = self._name_count[token] = self._name_count.get(token, 0) + 1
+        self._names[id(obj)] = token if n == 1 else '%s#%d' % (token, n)
 
     def tok(self, obj):
         if obj is None or obj is True or obj is False:
@@ -775,6 +784,7 @@ def run_scenario(spec, sampling=False, run_on=True, explicit_shutdown=False,
                 trace.rerun = True
                 rec.events = []
                 rec.samples = []
+                rec._name_count = {}
                 loop.tasks = []
                 loop.horizon = loop.time() + 2 * span + 10
             else:
